@@ -34,6 +34,8 @@ inductive Sub where
   | acqStart            -- `AcquisitionStart.execute()`    = register write
   | acqStop             -- `AcquisitionStop.execute()`     = register write
   | paramRead           -- read of a feature register (params access, cache miss)
+  | gateSet (v : Nat)   -- params access: WRITE of another feature (e.g. one that the description
+                        -- lets gate the access mode of `TLParamsLocked`)
   | loopStart           -- `PayloadStream::start_streaming_loop`
   | loopStop            -- `PayloadStream::stop_streaming_loop`
   deriving Repr, DecidableEq, Inhabited
@@ -80,6 +82,7 @@ structure Cache where
   start : Bool := false
   stop : Bool := false
   gain : Bool := false
+  gate : Bool := false
   deriving Repr, DecidableEq, Inhabited
 
 def Cache.empty : Cache := {}
@@ -101,6 +104,8 @@ structure Dev where
   lock : Nat := 0
   /-- device acquiring (`AcquisitionStart` written, `AcquisitionStop` not yet) -/
   acquiring : Bool := false
+  /-- device register behind the feature written by `gateSet` -/
+  gate : Nat := 0
   /-- the payload channel that connects the live receive loop with the `PayloadReceiver` that
   `start_streaming` returned to the caller: `(payload capacity, buffer capacity)`; `none` when
   no loop holds a sender whose peer the caller has -/
@@ -308,6 +313,18 @@ def paramAccess (env : Env) : M Unit := do
   if d.cache.gain then pure ()
   else subOp env .paramRead true nodeErr (fun d => { d with cache := { d.cache with gain := true } })
 
+/-- params access that WRITES another feature: `camera.params_ctxt()?` then
+`node.set_value(v)` (register write, cached write-through, dropped when the write fails).
+A description may let this feature gate the access mode the `TLParamsLocked` node reports
+(`pIsLocked`, `pIsAvailable`); `start_streaming` / `stop_streaming` do not consult that access
+mode — `IntegerNode::set_value` writes regardless — so the value written here does not occur
+anywhere else in the model. -/
+def gateAccess (env : Env) (v : Nat) : M Unit := do
+  let _ ← paramsCtxt
+  subOp env (.gateSet v) true nodeErr
+    (fun d => { d with gate := v, cache := { d.cache with gate := true } })
+    (fun d => { d with cache := { d.cache with gate := false } })
+
 /-! ### Call sequences -/
 
 inductive Op where
@@ -317,6 +334,7 @@ inductive Op where
   | stop
   | close
   | param
+  | gate (v : Nat)
   deriving Repr, DecidableEq, Inhabited
 
 def call (env : Env) : Op → M Unit
@@ -326,6 +344,7 @@ def call (env : Env) : Op → M Unit
   | .stop => stopStreaming env
   | .close => closeCam env
   | .param => paramAccess env
+  | .gate v => gateAccess env v
 
 /-- One call: its result and the state after it (a caught panic leaves the state as it was
 at the point of the panic). -/
